@@ -261,8 +261,11 @@ class Case:
         if (tn.num_tensors < 2 or not any(len(tids) == 2 for tids in tn.ind_map.values())) and \
                 op.startswith(("gauge", "canonize", "balance", "compress", "g_")):
             return      # no bonds left to gauge
-        if any(not np.any(np.abs(np.asarray(t.data)) > 0) for t in tn.tensors):
-            # a tensor that is identically zero: the network denotes zero, norms cannot be equalised and the
+        if getattr(self, "value_zero", None) is None:
+            self.value_zero = not np.any(np.abs(np_denote(tn_tensors(tn) + self.gauge_tensors(), self.out, 0.0)) > 0)
+        if self.value_zero or any(not np.any(np.abs(np.asarray(t.data)) > 0) for t in tn.tensors):
+            # the network denotes zero (a zero tensor, or e.g. orthogonal vectors over a bond): gauges of a vanishing
+            # bond are 0/0, norms cannot be equalised and the
             # simplification passes divide by them unless asked to check (a zero has no mantissa/exponent form)
             return
         multib = any(len(set(a.inds) & set(b.inds)) > 1 for i, a in enumerate(tn.tensors) for b in tn.tensors[i + 1:])
